@@ -58,7 +58,7 @@ class Pool:
         cap = max_ids(sw, ch)
         base = 1
         for j in range(rng.randint(2, 4)):
-            big = 30 if tier == "quick" else 400
+            big = 30 if tier == "quick" else 200
             n = rng.choice([0, 1, 2, 3, rng.randint(0, 8), rng.randint(0, big)])
             n = max(0, min(n, cap - base - 1))
             sr = self.sr if (j < 2 or rng.random() < .7) else self.sr + 1
@@ -114,7 +114,7 @@ def run_ops(core, rng, tier, nops):
 
     def pyb(x):
         return None if x == NONE else x
-    cap = 150 if tier == "quick" else 1500          # keeps the sequences TLC has to rebuild small
+    cap = 150 if tier == "quick" else 400           # keeps the sequences TLC has to rebuild small
     for _ in range(nops):
         op = rng.choice(["slice", "slice", "sec", "sec", "ms", "len", "typeerr", "concat", "sum", "mul", "div", "join", "silence", "eq", "assign", "ragged"])
         if op in ("concat", "sum", "mul", "join") and max(len(x) for x in P.regs) > cap:
@@ -224,6 +224,8 @@ def run_ops(core, rng, tier, nops):
                 i = rng.choice(c)
                 r = P.regs[i]
                 k = rng.choice([1, 2, 3, len(r), len(r) + 1, len(r) + 5, rng.randint(1, len(r) + 2)])
+                if len(r) > 60 and k > 12:
+                    k = rng.choice([2, 3, 5, 7, 12])        # many pieces of a long region: quadratic for the judge, nothing new for the code
                 pieces = r / k
                 if rng.random() < .5:
                     # the caller owns the returned list: whatever it does with it must not influence a later division
